@@ -30,7 +30,8 @@ META = {
                    "per statement); links in the C14 generator define no exclusions of their own."),
     'rule': ("cases = force fields with 2-3 blocks (nrexcl drawn from 0-4, equal or mixed), 1-3 bond-making links and (30%) a bond made by a by_atom_id link x residue "
              "graphs of 2-6 residues; plus all ordered pairs of distances 0..4 on a two-block chain; non-trivial = mixed distances "
-             "with at least one generated pair; distinct by (force-field text, graph)"),
+             "with at least one generated pair; distinct by (force-field text, graph)"
+             "; directed / added families (waves 10-12): exclusion lines declared by links"),
 }
 
 PRELUDE = """From PV Require Import Graph Excl.
